@@ -210,7 +210,7 @@ def canon_value(v, depth=0):
         return ("script", len(v.calls))
     if callable(v):
         return ("callable", getattr(v, "__name__", type(v).__name__))
-    return ("obj", type(v).__name__, id(v))
+    return ("obj", type(v).__name__)
 
 
 def canon_instance(obj):
